@@ -18,7 +18,10 @@ import (
 // batch size). A self-constructed refusal whose condition reads the request's *values* is a precondition the statement does
 // not have: nothing here can show that every parameter set it refuses is one the circuit rejects, so some valid batch may be
 // left without a proof.
+var refusalPS *types.Named
+
 func checkRefusals(p *core.Program, r *core.Report, rule string, root *ssa.Function) {
+	refusalPS = provingSystemType(p)
 	seen := map[*ssa.Function]bool{}
 	var order []*ssa.Function
 	var visit func(fn *ssa.Function)
@@ -266,6 +269,13 @@ func addrRead(a ssa.Value, seen map[ssa.Value]bool) string {
 	case *ssa.FieldAddr:
 		// a field of a struct reached from a parameter: a dimension if it is an integer, otherwise (a *big.Int, a slice) a value
 		if b, ok := x.Type().(*types.Pointer).Elem().Underlying().(*types.Basic); ok && b.Info()&types.IsInteger != 0 {
+			// an integer field of the proving system is a dimension; an integer field of anything else reached from the
+			// request (StartIndex) is a request value
+			if refusalPS != nil {
+				if n := namedOf(x.X.Type()); n != nil && n != refusalPS && inRepoObj(n.Obj()) {
+					return "field " + fieldNameOf(x) + " of the request"
+				}
+			}
 			return addrBase(x.X, seen)
 		}
 		if _, ok := x.Type().(*types.Pointer).Elem().Underlying().(*types.Slice); ok {
@@ -320,4 +330,81 @@ func describeValue(v ssa.Value) string {
 		return "a type assertion"
 	}
 	return v.Name()
+}
+
+// writesThroughParam: fn (or an in-repo function it hands the pointer to) stores through its k-th parameter: a field, an
+// element of a slice reached from it, or the pointee itself.
+func writesThroughParam(fn *ssa.Function, k int, seen map[string]bool) (bool, token.Pos) {
+	key := fmt.Sprintf("%p/%d", fn, k)
+	if seen[key] || len(fn.Blocks) == 0 || k >= len(fn.Params) {
+		return false, token.NoPos
+	}
+	seen[key] = true
+	rooted := map[ssa.Value]bool{fn.Params[k]: true}
+	for changed := true; changed; {
+		changed = false
+		for _, b := range fn.Blocks {
+			for _, in := range b.Instrs {
+				v, ok := in.(ssa.Value)
+				if !ok || rooted[v] {
+					continue
+				}
+				switch x := in.(type) {
+				case *ssa.FieldAddr:
+					if rooted[x.X] {
+						rooted[v], changed = true, true
+					}
+				case *ssa.IndexAddr:
+					if rooted[x.X] {
+						rooted[v], changed = true, true
+					}
+				case *ssa.UnOp:
+					// loading a slice or pointer stored in the request keeps us inside the request's memory
+					if x.Op == token.MUL && rooted[x.X] {
+						switch x.Type().Underlying().(type) {
+						case *types.Slice, *types.Pointer:
+							rooted[v], changed = true, true
+						}
+					}
+				case *ssa.Slice:
+					if rooted[x.X] {
+						rooted[v], changed = true, true
+					}
+				case *ssa.Phi:
+					for _, e := range x.Edges {
+						if rooted[e] {
+							rooted[v], changed = true, true
+						}
+					}
+				}
+			}
+		}
+	}
+	for _, b := range fn.Blocks {
+		for _, in := range b.Instrs {
+			switch x := in.(type) {
+			case *ssa.Store:
+				if rooted[x.Addr] {
+					return true, x.Pos()
+				}
+			case ssa.CallInstruction:
+				callee := x.Common().StaticCallee()
+				// a mutating big.Int method on a value inside the request (p.InputHash.SetBytes(…))
+				if callee != nil && callee.Signature.Recv() != nil && isBigIntType(callee.Signature.Recv().Type()) && !bigIntReadOnly[callee.Name()] && len(x.Common().Args) > 0 && rooted[x.Common().Args[0]] {
+					return true, x.Pos()
+				}
+				if callee == nil || len(callee.Blocks) == 0 || !core.InRepo(pkgPathOf(callee)) {
+					continue
+				}
+				for j, a := range x.Common().Args {
+					if rooted[a] {
+						if w, _ := writesThroughParam(callee, j, seen); w {
+							return true, x.Pos()
+						}
+					}
+				}
+			}
+		}
+	}
+	return false, token.NoPos
 }
